@@ -53,8 +53,8 @@ fn callback() {
     CTX.with(|c| {
         if c.armed.get() {
             let n = c.count.get();
-            c.count.set(n + 1);
-            if n == c.panic_at.get() {
+            c.count.set(n.saturating_add(1));
+            if n == c.panic_at.get() && n != u32::MAX {
                 c.fired.set(true);
                 c.armed.set(false);
                 std::panic::panic_any(Injected);
@@ -67,7 +67,7 @@ fn callback() {
 fn monitor(kind: u64, k: &SimKey) {
     CTX.with(|c| {
         if c.mon_on.get() {
-            c.mon_calls.set(c.mon_calls.get() + 1);
+            c.mon_calls.set(c.mon_calls.get().wrapping_add(1));
             if k.id == c.mon_probe.get() && k.id != 0 {
                 return;
             }
@@ -129,7 +129,8 @@ pub fn guarded<T>(panic_at: Option<u32>, mon: Option<(i32, u32)>, f: impl FnOnce
     CTX.with(|c| {
         c.count.set(0);
         c.fired.set(false);
-        c.panic_at.set(panic_at.unwrap_or(u32::MAX));
+        // u32::MAX = no crash point; u32::MAX - 1 = control run (checks without a fault)
+        c.panic_at.set(panic_at.filter(|j| *j < u32::MAX - 1).unwrap_or(u32::MAX));
         if let Some((t, p)) = mon {
             c.mon_on.set(true);
             c.mon_time.set(t);
@@ -147,7 +148,7 @@ pub fn guarded<T>(panic_at: Option<u32>, mon: Option<(i32, u32)>, f: impl FnOnce
         c.armed.set(false);
         c.mon_on.set(false);
         let n = c.count.get();
-        c.total_callbacks.set(c.total_callbacks.get() + n as u64);
+        c.total_callbacks.set(c.total_callbacks.get().wrapping_add(n as u64));
         let rep = if mon.is_some() && c.mon_viol.get() != 0 {
             let v = c.mon_viol.get();
             Some(MonitorReport {
@@ -257,18 +258,127 @@ pub fn closure_called() {
     callback();
 }
 
-/// Heap-allocated, non-trivially cloneable value: (key it was inserted for, version).
-#[derive(Clone, Debug, PartialEq, Eq)]
-pub struct Tracked(pub Box<(i32, u32)>);
+/// Non-trivially cloneable value with identity: (key it was inserted for, version).
+/// The payload lives in a harness-owned arena (the simulated heap of the
+/// values) and the value itself is only the handle into it, so that what a
+/// real heap value would suffer from a library that duplicates it bitwise
+/// instead of cloning it - a double free, a use after free - is detected
+/// deterministically (second drop, access after drop) without corrupting the
+/// process, and the run continues and replays exactly.
+pub struct Tracked {
+    idx: u32,
+}
+
+#[derive(Clone, Copy)]
+struct Ent {
+    k: i32,
+    v: u32,
+    dropped: bool,
+}
+
+thread_local! {
+    static ARENA: RefCell<Vec<Ent>> = const { RefCell::new(Vec::new()) };
+    static DOUBLE_DROP: Cell<Option<(i32, u32)>> = const { Cell::new(None) };
+    static EPOCH: Cell<u32> = const { Cell::new(0) };
+}
+
+fn arena_new(k: i32, v: u32) -> u32 {
+    ARENA.with(|a| {
+        let mut a = a.borrow_mut();
+        a.push(Ent { k, v, dropped: false });
+        (a.len() - 1) as u32
+    })
+}
+
+/// Forget all values (start of a run; every value of the previous run is gone by then).
+pub fn registry_reset() {
+    ARENA.with(|a| a.borrow_mut().clear());
+    DOUBLE_DROP.with(|d| d.set(None));
+    EPOCH.with(|e| e.set(e.get().wrapping_add(1)));
+}
+
+/// (key, identity) of a value that was dropped a second time, or used after
+/// its drop, since the last call - if any.
+pub fn take_double_drop() -> Option<(i32, u32)> {
+    DOUBLE_DROP.with(|d| d.take())
+}
+
+fn flag(k: i32, idx: u32) {
+    DOUBLE_DROP.with(|d| {
+        if d.get().is_none() {
+            d.set(Some((k, idx)));
+        }
+    });
+}
 
 impl Tracked {
     pub fn new(k: i32, ver: u32) -> Self {
-        Tracked(Box::new((k, ver)))
+        Tracked { idx: arena_new(k, ver) }
+    }
+    #[inline]
+    fn ent(&self) -> Ent {
+        ARENA.with(|a| {
+            let a = a.borrow();
+            match a.get(self.idx as usize) {
+                Some(e) => {
+                    if e.dropped {
+                        // use after drop through a bitwise duplicate
+                        flag(e.k, self.idx);
+                    }
+                    *e
+                }
+                None => Ent { k: i32::MIN + 1, v: 0, dropped: true },
+            }
+        })
+    }
+    #[inline]
+    pub fn key(&self) -> i32 {
+        self.ent().k
+    }
+    #[inline]
+    pub fn ver(&self) -> u32 {
+        self.ent().v
+    }
+    #[inline]
+    pub fn set_ver(&mut self, v: u32) {
+        ARENA.with(|a| {
+            if let Some(e) = a.borrow_mut().get_mut(self.idx as usize) {
+                e.v = v;
+            }
+        });
+    }
+}
+impl Clone for Tracked {
+    fn clone(&self) -> Self {
+        let e = self.ent();
+        Tracked::new(e.k, e.v)
     }
 }
 impl Default for Tracked {
     fn default() -> Self {
-        Tracked(Box::new((i32::MIN, 0)))
+        Tracked::new(i32::MIN, 0)
+    }
+}
+impl std::fmt::Debug for Tracked {
+    fn fmt(&self, f: &mut std::fmt::Formatter<'_>) -> std::fmt::Result {
+        let e = self.ent();
+        write!(f, "Tracked({}, {})", e.k, e.v)
+    }
+}
+impl Drop for Tracked {
+    fn drop(&mut self) {
+        ARENA.with(|a| {
+            if let Ok(mut a) = a.try_borrow_mut() {
+                if let Some(e) = a.get_mut(self.idx as usize) {
+                    if e.dropped {
+                        // second drop of the same value
+                        flag(e.k, self.idx);
+                    } else {
+                        e.dropped = true;
+                    }
+                }
+            }
+        });
     }
 }
 
